@@ -300,11 +300,9 @@ theorem fieldOf_inv (xa : XA α) (m : Mesh) (k : Nat) (g : XFld α) (h : fieldOf
       | ok vd =>
         rw [h1] at h; simp only [Except.bind] at h; rw [h2] at h; simp only [] at h; rw [h3] at h
         simp only [] at h
-        split at h
-        · cases h
-        · injection h with h
-          rw [← h]
-          exact ⟨rfl, rfl, asArray_shape _ _ _ _ h2, rfl, rfl, rfl, vdimsSet_inv k _ _ h3 hdef⟩
+        injection h with h
+        rw [← h]
+        exact ⟨rfl, rfl, asArray_shape _ _ _ _ h2, rfl, rfl, rfl, vdimsSet_inv k _ _ h3 hdef⟩
 
 /-- **Every field `from_xarray` returns is well-formed** — for every DataArray -/
 theorem fromXA_wf (xa : XA α) (g : XFld α) (h : fromXA xa = .ok g) (hdef : xa.vdimsCoord = none → DefaultsFree) :
